@@ -19,7 +19,7 @@ A1, A2 = 0x55550010, 0x7fffe000
 # (how it is typed, effect)
 COMMANDS = [('resume', 'resume'), ('r', 'resume'), ('wlresume', 'resume'), ('RESUME'.lower(), 'resume'), ('quit', 'quit'), ('q', 'quit'), ('wl quit', 'quit'), ('w q', 'quit'),
             ('filter xyz', 'stay'), ('breakpoint xyz', 'stay'), ('b xyz', 'stay'), ('connection', 'stay'), ('connection A', 'stay'), ('c all', 'stay'), ('help', 'stay'),
-            ('help resume', 'stay'), ('list', 'stay'), ('zzz', 'stay'), ('', 'stay'), ('   ', 'stay'), ('res ume', 'resume'), ('resumequit', 'stay'), ('matcher x', 'stay')]
+            ('help resume', 'stay'), ('list', 'stay'), ('zzz', 'stay'), ('connection zz', 'stay'), ('c B', 'stay'), ('', 'stay'), ('   ', 'stay'), ('res ume', 'resume'), ('resumequit', 'stay'), ('matcher x', 'stay')]
 
 
 def step(ctx, case):
@@ -95,6 +95,34 @@ def step(ctx, case):
             ctx.check('quit quits GDB', ex == ['quit'])
         else:
             ctx.check('any other command leaves the program halted', ex == [] and w.plugin.paused() and not w.plugin.state.should_quit())
+        if effect != 'quit':
+            # the next message: selection and breakpoint as the command left them
+            sel_before = selected
+            words = text.split()
+            exp_sel = sel_before
+            if effect == 'stay' and words and 'connection'.startswith(words[0]) and len(words) > 1:
+                named = [c for c in w.manager.connections() if c.name().lower() == ' '.join(words[1:]).lower()]
+                if words[1:] == ['all']:
+                    exp_sel = None
+                elif named:
+                    exp_sel = named[0]
+                # a name that is no connection leaves the selection alone
+            ctx.check('selection after the command', w.ctl.current_connection is exp_sel)
+            if not (effect == 'stay' and words and 'breakpoint'.startswith(words[0]) and len(words) > 1):
+                on2 = ctx.choose([0, 1], 'msg2_conn')
+                if on2 < len(w.manager.connections()):
+                    w.gdb._State.executed[:] = []
+                    ret2 = gdbworld.fire_message(w, [A1, A2][on2], 1, 'sync', True, 8)
+                    t2 = w.manager.connections()[on2]
+                    m2 = t2.messages()[-1]
+                    if exp_sel is None or exp_sel is t2:
+                        v2 = B.verdict(m2)
+                        if ctx.symbolic:
+                            ctx.check('next message: halted iff it matches the breakpoint matcher', v2 if ret2 else ~v2)
+                        else:
+                            ctx.check('next message: halted iff it matches the breakpoint matcher', ret2 == bool(v2))
+                    else:
+                        ctx.check('next message on a connection other than the selected one never halts', ret2 is False)
     finally:
         matcher.parse = saved_parse
         ctl.restore_show()
